@@ -55,6 +55,8 @@ def value_pool(prop):
         for code in CODEPOINTS:
             pool.extend(delimiter_spellings(code))
         pool += ["", "ab", "'ab'", "tabx", "1 2", "0", "0x0", "'\\x00'", "space", "comma", '"ab"', "''", "1114112", "0x110000", "TAB,", "cr lf"]
+        # numbers only in Python's eyes: octal and binary prefixes, digit groups (the documented codes are decimal and 0x-hex)
+        pool += ["4_4", "0x2_c", "0x_2c", "0o54", "0O54", "0b101100", "0B101100", "1_0", "054_"]
         return pool
     if prop == "quote_character":
         return list(M.QUOTE_CHARACTERS) + ["a", "1", "(", ")", ",", ".", " ", "", '""', "34", "0x22", "@", "[", "<", "|", "ä"]
